@@ -25,7 +25,7 @@ theorem decl_lt (ch : List Diff) (c : CHash) (n : Nat) (e : (absOf ch).decl c = 
     | some m => simp [hd] at e; subst e; have := ih hd; simp; omega
     | none =>
       simp only [hd] at e
-      by_cases hc : c ∈ d.classHashes
+      by_cases hc : c ∈ d.newClasses
       · simp [hc] at e; subst e; simp
       · simp [hc] at e
 
@@ -68,7 +68,7 @@ theorem decl_at_iff (ch : List Diff) (c : CHash) (n : Nat) :
       cases hd : (absOf rest).decl c with
       | some m => rfl
       | none =>
-        by_cases hc : c ∈ d.classHashes
+        by_cases hc : c ∈ d.newClasses
         · have : ¬ rest.length ≤ n := by omega
           simp [hc, this]
         · simp [hc]
@@ -146,5 +146,12 @@ def Query.ordinary : Query → Prop
   | .nonce a => isSystem a = false
   | .storage a _ => isSystem a = false
   | .cls _ => True
+
+theorem newClasses_sub_revert (d : Diff) (hwf : d.WF) (c : CHash) (h : c ∈ d.newClasses) : c ∈ d.revertClasses := by
+  unfold Diff.newClasses at h
+  unfold Diff.revertClasses
+  rcases List.mem_append.mp h with h1 | h1
+  · exact List.mem_append.mpr (Or.inl h1)
+  · exact List.mem_append.mpr (Or.inr (hwf.extraOK c h1))
 
 end Juno.C03
